@@ -98,6 +98,7 @@ structure Sto where
   log : List Frame := []      -- frames stored in the current run (ghost, = what the mock records)
   base : Nat := 0             -- ghost: bytes committed to `sink.in` when this run of the storage was started
   clean : Bool := true        -- ghost: the sink's reader had consumed everything at that moment
+  monFresh : Bool := false    -- ghost: … and so had the (registered) monitor reader
   ncommit : Nat := 0          -- ghost: frames committed to `sink.in` since this run of the storage was started
   dropped : Bool := false     -- ghost: a frame of this run was not committed because the channel refused writes
   appended : Nat := 0         -- ghost: stream position up to which the frames of `sink.in` have been appended in this run
@@ -153,6 +154,7 @@ structure Stream where
   filtCh : Sys := (step (Sys.init 4096) .join).1
   sinkFrames : List (Nat × Frame) := []   -- ghost: (start byte in the committed stream, frame)
   monReg : Bool := false       -- the client's monitor reader is registered (reader 1 of `sink.in`)
+  monFlushed : Bool := false   -- ghost: `acquire_stop` has flushed the monitor reader and no source thread has been created since
   srcStopping : Bool := false
   srcRunning : Bool := false
   fltStopping : Bool := false
